@@ -67,7 +67,7 @@ fn catalogue_cases(tier: Tier) -> Vec<Scenario> {
     out
 }
 
-fn sampled(rng: &mut Rng, c08: bool) -> Scenario {
+pub(crate) fn sampled(rng: &mut Rng, c08: bool) -> Scenario {
     let m = gen_method(rng);
     let (mut sc, p) = gen_admissible(rng, m, ProbClass::Smooth, Entry::High, 20_000, &mut |rng, sc| {
         if sc.method == Meth::RK4 {
